@@ -44,7 +44,7 @@ DeepVariants == {Slice(Ptr(CatchElem, TRUE), FALSE, None, <<>>, <<>>),
                  Slice(Pre("ok", CatchElem), FALSE, None, <<>>, <<>>),
                  Ptr(Slice(CatchElem, TRUE, None, SliceTests, <<>>), TRUE),
                  Slice(Inner2, FALSE, None, <<>>, <<>>)}
-PreVariants == {Pre(kd, Prim("int", TRUE, None, c, <<T("gte", 2, "gte")>>, <<"ok">>)) : kd \in {"ok", "err", "zerr"}, c \in Sel({None}, {None}, {None, 5})}
+PreVariants == {Pre(kd, Prim("int", TRUE, None, c, <<T("gte", 2, "gte")>>, <<"ok">>)) : kd \in Sel({"ok", "err"}, {"ok", "err", "zerr", "mut"}, {"ok", "err", "zerr", "mut"}), c \in Sel({None}, {None}, {None, 5})}
 StructVariants == {Inner, Ptr(Inner, TRUE), Slice(Inner, FALSE, None, <<>>, <<>>)} \cup Sel({}, PreVariants, PreVariants) \cup Sel({Slice(Ptr(CatchElem, TRUE), FALSE, None, <<>>, <<>>), Slice(Pre("ok", CatchElem), FALSE, None, <<>>, <<>>)}, DeepVariants, DeepVariants)
 
 FieldVariants == PrimVariants \cup SliceVariants \cup PtrVariants \cup CustomVariants \cup StructVariants
@@ -76,7 +76,7 @@ ParseInputs(node) ==
 RECURSIVE ValueInputs(_)
 ValueInputs(node) ==
   CASE node.k \in {"prim", "custom"} -> {Val(0), Val(1), Val(3)}
-    [] node.k = "pre" -> {}                 \* Preprocess in Validate needs a pointer-typed function: not modelled
+    [] node.k = "pre" -> ValueInputs(Elem(node))
     [] node.k = "slice"  -> IF Elem(node).k = "struct"
                             THEN {Nil, List(<<Map(<<Ent("x", Val(1))>>), Map(<<Ent("x", Val(3))>>)>>),
                                   List(<<Map(<<Ent("x", Val(1)), Ent("y", Val(1))>>), Map(<<Ent("x", Val(3))>>)>>)}
@@ -89,7 +89,7 @@ ValueInputs(node) ==
 RECURSIVE HasPre(_)
 HasPre(node) == node.k = "pre" \/ \E i \in DOMAIN node.kids : HasPre(node.kids[i].node)
 \* Preprocess in Validate needs a pointer-typed function: such variants are explored in Parse only
-InputsFor(node, mode) == IF mode = "parse" THEN ParseInputs(node) ELSE IF HasPre(node) THEN {} ELSE ValueInputs(node)
+InputsFor(node, mode) == IF mode = "parse" THEN ParseInputs(node) ELSE ValueInputs(node)
 
 \* quick: the root's own tests pass, so that successful executions exist (C01, C03); failing struct tests are on Inner
 StructTests == Sel({<<UT("const", 0, "st1"), UT("const", 0, "st2")>>}, {<<UT("const", 1, "st1"), UT("const", 1, "st2")>>},
